@@ -1083,8 +1083,10 @@ class WeighTarget(Algo):
         if target.now in weights.index:
             w = weights.loc[target.now]
 
-            # dropna and save
-            target.temp["weights"] = w.dropna()
+            # dropna and save - as floats: later algos (LimitDeltas, TargetVol)
+            # write fractional weights into this series, which an integer
+            # typed target frame (0/1 signals) would not accept
+            target.temp["weights"] = w.dropna().astype(float)
 
             return True
         else:
